@@ -279,9 +279,10 @@ package xmss
 
 //@ func initializeTree
 //@   props C02 C08 C09
+//@   pure
 //@   requires desc.height <= 30
 //@   panics "For BDS traversal, H - K must be even, with H > K >= 2!" when desc.height <= 2 || desc.height % 2 == 1
-//@   ensures[C02,C08,C09] xmssInv(result) && idxOf(result.sk) == 0 && result.height == desc.height && result.hashFunction == desc.hashFunction && result.seed[0:48] == seed[0:48] && result.desc == desc
+//@   ensures[C02,C08,C09] xmssInv(result) && idxOf(result.sk) == 0 && result.height == desc.height && result.hashFunction == desc.hashFunction && result.seed[0:48] == seed[0:48] && result.desc.hashFunction == desc.hashFunction && result.desc.signatureType == desc.signatureType && result.desc.height == desc.height && result.desc.addrFormatType == desc.addrFormatType
 
 //@ func XMSS.SetIndex
 //@   props C02 C08
@@ -301,3 +302,47 @@ package xmss
 //@   ensures[C02] xmssInv(x) && idxOf(x.sk) == old(idxOf(x.sk)) + 1
 //@   ensures[C02] !iserr(result1) ==> len(result0) == 2180 + 32*x.height && idxOf(result0) == old(idxOf(x.sk))
 //@   assigns x.sk[0:4], bdsAll(x.bdsState)
+
+// ---- C09: recovery lemmas (see zz_lemmas_verif.go) ----
+
+//@ pred bdsEq(a, b) := a.stack[0:len(a.stack)] == b.stack[0:len(b.stack)] && a.stackOffset == b.stackOffset && a.stackLevels[0:len(a.stackLevels)] == b.stackLevels[0:len(b.stackLevels)] && a.auth[0:len(a.auth)] == b.auth[0:len(b.auth)] && a.keep[0:len(a.keep)] == b.keep[0:len(b.keep)] && a.treeHash == b.treeHash && a.retain[0:len(a.retain)] == b.retain[0:len(b.retain)] && a.nextLeaf == b.nextLeaf
+//@ pred sameKey(a, b) := a.sk[0:132] == b.sk[0:132] && a.height == b.height && a.hashFunction == b.hashFunction && a.seed[0:48] == b.seed[0:48] && a.desc.hashFunction == b.desc.hashFunction && a.desc.signatureType == b.desc.signatureType && a.desc.height == b.desc.height && a.desc.addrFormatType == b.desc.addrFormatType && bdsEq(a.bdsState, b.bdsState)
+
+//@ func NewXMSSFromSeed
+//@   inline
+//@ func NewXMSSFromExtendedSeed
+//@   inline
+//@ func NewXMSSFromHeight
+//@   inline
+//@ func XMSS.GetSeed
+//@   inline
+
+//@ func XMSS.GetExtendedSeed
+//@   props C09
+//@   ensures[C09] result[0] == (x.desc.signatureType % 16) * 16 + x.desc.hashFunction % 16 && result[1] == (x.desc.addrFormatType % 16) * 16 + (x.desc.height / 2) % 16 && result[2] == 0
+//@   ensures[C09] result[3:51] == x.seed[0:48]
+
+//@ func verifLemmaRecoverFromExtendedSeed
+//@   props C09
+//@   requires 4 <= height && height <= 30 && height % 2 == 0 && hashFunction < 16
+//@   ensures[C09] sameKey(a, b)
+
+//@ func verifLemmaFreshKeyRegenerates
+//@   props C09
+//@   requires 4 <= height && height <= 30 && height % 2 == 0 && hashFunction < 16
+//@   panics "Failed to generate random seed for XMSS address"
+//@   ensures[C09] sameKey(a, b)
+
+//@ func XMSS.GetRoot
+//@   inline
+//@ func XMSS.GetPKSeed
+//@   inline
+
+//@ func XMSS.GetPK
+//@   props C09 C02
+//@   requires len(x.sk) == 132
+//@   ensures[C09,C02] result[0] == (x.desc.signatureType % 16) * 16 + x.desc.hashFunction % 16 && result[1] == (x.desc.addrFormatType % 16) * 16 + (x.desc.height / 2) % 16 && result[2] == 0
+//@   ensures[C09,C02] result[3:35] == x.sk[100:132] && result[35:67] == x.sk[68:100]
+//@   loop 1 invariant 0 <= i && i <= 3 && forall k_ :: 0 <= k_ && k_ < i ==> output[k_] == desc[k_]
+//@   loop 2 invariant 0 <= i && i <= 32 && offset == 3 && (forall k_ :: 0 <= k_ && k_ < 3 ==> output[k_] == desc[k_]) && forall k_ :: 0 <= k_ && k_ < i ==> output[3+k_] == x.sk[100+k_]
+//@   loop 3 invariant 0 <= i && i <= 32 && offset == 35 && (forall k_ :: 0 <= k_ && k_ < 3 ==> output[k_] == desc[k_]) && (forall k_ :: 0 <= k_ && k_ < 32 ==> output[3+k_] == x.sk[100+k_]) && forall k_ :: 0 <= k_ && k_ < i ==> output[35+k_] == x.sk[68+k_]
